@@ -34,6 +34,15 @@ def gen_case(rng, idx):
             if rng.chance(1, 2): mine = rng.shuffle(mine)
         for (kd, src, k, t) in mine:
             lines.append('%s %d %d %d %d' % (kd, r, src, k, t))
+        if mode == 2 and rng.chance(1, 2):
+            # the replica has heard from an origin, on both sources, more than a forgiveness period later: its cut-off
+            # for that origin passes older stamps (what a purge relies on)
+            nd = rng.choice(pool.origins)
+            far = max(o[3] for o in allops) >> 32
+            for src in (0, 1):
+                lines.append('ins %d %d %d %d' % (r, src, 90 + src, pack(far * 1000 + rng.choice([F_MS, F_MS + 4, 2 * F_MS]) + 4000, src, nd)))
+            if rng.chance(1, 2):
+                lines.append('purge %d' % r)
         lines.append('dump %d' % r)
     for nd in pool.origins:
         lines.append('cut 0 %d' % nd)
@@ -42,7 +51,9 @@ def gen_case(rng, idx):
     lines += ['applydiff 0 1 1 %d' % m, 'tag closed', 'diff 0 1']
     if mode != 2:
         lines += ['lww 0']
-    lines += ['applydiff 1 2 1 %d' % rng.choice([0, 1, 2 + 2 * rng.below(64)]), 'tag closed', 'diff 1 2', 'tag A', 'dump 0', 'tag B', 'dump 1']
+    lines += ['applydiff 1 2 1 %d' % rng.choice([0, 1, 2 + 2 * rng.below(64)])]
+    lines += ['dump 1', 'dump 2'] + ['cut 1 %d' % nd for nd in pool.origins]
+    lines += ['tag closed', 'diff 1 2', 'tag A', 'dump 0', 'tag B', 'dump 1']
     lines.append('mode %d' % mode)
     lines.append('end')
     return lines
@@ -71,35 +82,43 @@ def parse_diff(out):
 def oracle(case, impl):
     bad = []
     mode = int([l for l in case if l.startswith('mode')][0].split()[1]) if any(l.startswith('mode') for l in case) else 2
-    dumps, cuts, tag, tagged = {}, {}, None, {}
+    dumps, cuts, tag, tagged, fresh = {}, {}, None, {}, set()
     first_diff = None
     for line, out in zip(case, impl):
         t = line.split()
         if out.startswith(('crash', 'panic')):
             bad.append('%s: %s' % (line, out)); continue
-        if t[0] == 'dump' and tag is None and t[1] in ('0', '1') and t[1] not in dumps:
-            dumps[t[1]] = parse_dump(out)
-        elif t[0] == 'cut' and out != 'cut none':
-            cuts[int(t[2])] = int(out.split()[1])
+        if t[0] == 'dump' and tag is None:
+            dumps[t[1]] = parse_dump(out); fresh.add(t[1])
+        elif t[0] in ('ins', 'del', 'applydiff', 'purge', 'copy', 'merge'):
+            fresh.discard(t[1])
+            if t[0] == 'copy': fresh.discard(t[2])
+            cuts.pop(t[1], None)
+        elif t[0] == 'cut':
+            cuts.setdefault(t[1], {})
+            if out != 'cut none':
+                cuts[t[1]][int(t[2])] = int(out.split()[1])
         elif t[0] == 'tag':
             tag = t[1]
         elif t[0] == 'diff':
             d = parse_diff(out)
+            ra, rb = t[1], t[2]
             if first_diff is None:
                 first_diff = d
+            if True:
                 # the definition: listed iff the peer's record is strictly newer than what a holds, or a holds nothing and the stamp is not before a's cut-off
-                if '0' in dumps and '1' in dumps:
-                    (ae, ad), (be, bd) = dumps['0'], dumps['1']
+                if ra in fresh and rb in fresh and ra in cuts:
+                    (ae, ad), (be, bd) = dumps[ra], dumps[rb]
                     def lacks(k, ts):
                         if k in ae: return ae[k] < ts
                         if k in ad: return ad[k] < ts
-                        c = cuts.get(node(ts))
+                        c = cuts[ra].get(node(ts))
                         return c is None or not ts < c
                     expC = {k: ts for k, ts in be.items() if lacks(k, ts)}
                     expR = {k: ts for k, ts in bd.items() if lacks(k, ts)}
                     if d[0] != expC: bad.append('diff modifications %s, definition gives %s' % (d[0], expC))
                     if d[1] != expR: bad.append('diff removals %s, definition gives %s' % (d[1], expR))
-            elif tag == 'closed':
+            if tag == 'closed':
                 if mode != 2 and (d[0] or d[1]):
                     bad.append('after applying the difference something is still to fetch: %s' % out)
             tag = None
